@@ -80,6 +80,7 @@ func Verif_C02_Status() {
 	overHTTP := zv.Bool("over-http")
 	kind := []string{"U", "R", "C", "S"}[zv.Choose("kind", 4)]
 	nBefore := zv.Choose("responses-before-the-end", 2)
+	headerFirst := zv.Bool("client-asks-for-headers-first")
 	out := verifHandlerOutcome()
 	hooks := &zzfix.Hooks{}
 	hooks.Unary = func(tag string, ctx context.Context, req *zzfix.Msg) (*zzfix.Msg, error) {
@@ -130,15 +131,20 @@ func Verif_C02_Status() {
 		}
 		cs.SendMsg(&zzfix.Msg{})
 		cs.CloseSend()
-		for i := 0; i < 4; i++ {
-			e := cs.RecvMsg(&zzfix.Msg{})
-			if e != nil {
-				final = e
-				break
-			}
-			if kind == "C" {
-				// single response received: the next receive gives the end
-				continue
+		if headerFirst {
+			cs.Header()
+		}
+		if kind == "C" {
+			// a single-response method: generated stubs call RecvMsg exactly once
+			// (CloseAndRecv) and report its result
+			final = cs.RecvMsg(&zzfix.Msg{})
+		} else {
+			for i := 0; i < 4; i++ {
+				e := cs.RecvMsg(&zzfix.Msg{})
+				if e != nil {
+					final = e
+					break
+				}
 			}
 		}
 		if final == io.EOF {
